@@ -122,15 +122,32 @@ def conclude(prop_id, tier, seed, *, states, transitions, executions, nontrivial
             print("KNOWN-FINDING: property=%s %s [%s; %d executions hit it in this run]"
                   % (prop_id, e["what"], e["id"], hit))
     nondeterministic = 0
+    transient = []
+    unconfirmed = set()
     printed = 0
     for sigkey, n, vs in fresh:
         v = vs[0]
         if replay_confirm is not None:
-            ok = replay_confirm(v)
+            ok = False
+            for cand in vs:                      # every recorded example of this signature, then once more
+                if replay_confirm(cand):
+                    v, ok = cand, True
+                    break
+            if not ok and replay_confirm(vs[0]):
+                ok = True
             if not ok:
-                nondeterministic += 1
-                print("ENGINE-ERROR: violation did not reproduce on replay: %s" % sigkey)
+                # Never reported as a violation: it cannot be replayed, so it cannot be trusted.  A one-off
+                # (count 1) is recorded as transient (e.g. resource exhaustion on a loaded machine); a
+                # signature that occurred repeatedly and still cannot be replayed means the harness does not
+                # own some source of nondeterminism and is a hard engine error.
+                print("%s: violation did not reproduce on replay (%d occurrence(s)): %s"
+                      % ("TRANSIENT" if n == 1 else "ENGINE-ERROR", n, sigkey))
                 print("   detail=%s" % json.dumps(v.get("detail"), default=str)[:1500])
+                if n == 1:
+                    transient.append(sigkey)
+                else:
+                    nondeterministic += 1
+                unconfirmed.add(sigkey)
                 continue
         path = write_replay(prop_id, v, dict(count=n, tier=tier, seed=seed))
         if printed < 12:
@@ -139,6 +156,7 @@ def conclude(prop_id, tier, seed, *, states, transitions, executions, nontrivial
             det = json.dumps(v.get("detail"), default=str)
             print("   detail=%s" % (det[:1500],))
         printed += 1
+    fresh = [x for x in fresh if x[0] not in unconfirmed]
     if fresh:
         kinds = {}
         for sigkey, n, vs in fresh:
@@ -160,6 +178,7 @@ def conclude(prop_id, tier, seed, *, states, transitions, executions, nontrivial
         caps_hit=caps or [],
         known_findings_hit={k: v[1] for k, v in known_hits.items()},
         new_violation_signatures=len(fresh),
+        transient_unreproducible=transient,
     )
     if extra:
         coverage.update(extra)
